@@ -70,7 +70,48 @@ def cmdPolyRegions (a : Args) : String :=
     let regs := calculateRegions r.nx r.ny r.conn8 (closeFn r.isInt) r.values r.mask
     s!"{r.ny}x{r.nx}:" ++ ",".intercalate (regs.map toString)
 
+/-- integer encoding of one result (no transform): region ids, then the number of polygons, the column,
+    and for every polygon its number of rings and for every ring its number of points and the points -/
+def encode (regs : List Nat) (out : Output Num) : List Int :=
+  let col := out.column.map fun v => match v with | .fin q => q.num | _ => (-999 : Int)
+  let body := out.polys.flatMap fun rings =>
+    (rings.length : Int) :: rings.flatMap fun ring =>
+      (ring.length : Int) :: ring.flatMap fun p => [p.1.num, p.2.num]
+  regs.map Int.ofNat ++ [(out.polys.length : Int)] ++ col ++ body
+
+/-- `polygonize_enum rows=R cols=C conn=4|8 alphabet=v,..,m from=T0 count=K`: raster number `t` has in
+    cell `i` (row-major) the symbol `alphabet[(t / k^i) % k]`; the symbol `m` is a masked-out pixel
+    (value 0).  Integer dtype.  Reply: `encode` of every raster, `;`-separated. -/
+def cmdPolygonizeEnum (a : Args) : String := Id.run do
+  let some rows := a.nat? "rows" | return "bad-args rows"
+  let some cols := a.nat? "cols" | return "bad-args cols"
+  let some conn := a.nat? "conn" | return "bad-args conn"
+  let some alphaS := a.get? "alphabet" | return "bad-args alphabet"
+  let some t0 := a.nat? "from" | return "bad-args from"
+  let some cnt := a.nat? "count" | return "bad-args count"
+  if conn ≠ 4 ∧ conn ≠ 8 then return "err:ValueError"
+  let syms := (splitList alphaS).toArray
+  let k := syms.size
+  if k = 0 then return "bad-args alphabet"
+  let vals : Array Num := syms.map fun s => if s == "m" then .fin 0 else (parseNum s).getD .nan
+  let msk : Array Bool := syms.map fun s => s != "m"
+  let mut out : Array String := Array.mkEmpty cnt
+  for dt in [0:cnt] do
+    let mut r := t0 + dt
+    let mut vs : Array Num := Array.mkEmpty (rows * cols)
+    let mut ms : Array Bool := Array.mkEmpty (rows * cols)
+    for _ in [0:rows * cols] do
+      vs := vs.push (vals.getD (r % k) .nan)
+      ms := ms.push (msk.getD (r % k) true)
+      r := r / k
+    let values : Nat → Num := fun ij => vs.getD ij .nan
+    let mask : Nat → Bool := fun ij => ms.getD ij true
+    let regs := calculateRegions cols rows (conn == 8) (closeFn true) values mask
+    let res := polygonizeNumpy cols rows (conn == 8) (closeFn true) values mask none
+    out := out.push (if res.ok then ",".intercalate ((encode regs res).map toString) else "stuck")
+  return ";".intercalate out.toList
+
 def handlers : List (String × (Args → String)) :=
-  [("polygonize", cmdPolygonize), ("polyregions", cmdPolyRegions)]
+  [("polygonize", cmdPolygonize), ("polyregions", cmdPolyRegions), ("polygonize_enum", cmdPolygonizeEnum)]
 
 end XrsVerif.Driver.PolygonizeCmd
